@@ -102,6 +102,7 @@ module {{ .ModuleName }}(clk,
         else begin
             // Read state machine part
             if (readneed && !empty) begin
+                {{- if .Receivers }}
                 case (recvSM)
                 {{- range $key, $value := .Receivers }}
                 {{ bits (len $.Receivers) }}'d{{ $key }}: begin
@@ -131,9 +132,11 @@ module {{ .ModuleName }}(clk,
                 end
                 {{- end }}
                 endcase
+                {{- end }}
             end
             // Write state machine part
             else if (writeneed && !full) begin
+                {{- if .Senders }}
                 case (sendSM)
                 {{- range $key, $value := .Senders }}
                 {{ bits (len $.Senders) }}'d{{ $key }}: begin
@@ -163,6 +166,7 @@ module {{ .ModuleName }}(clk,
                 end
                 {{- end }}
                 endcase
+                {{- end }}
             end
 
             // Read ack process
